@@ -8,6 +8,10 @@ sys.path.insert(0, os.environ.get("PYHMS_REPO", "/repo"))
 sys.dont_write_bytecode = True
 
 
+import warnings
+warnings.filterwarnings("ignore")
+
+
 def main():
     ap = argparse.ArgumentParser()
     ap.add_argument("property", nargs="?")
